@@ -78,6 +78,12 @@ func oracleC01(f *sessionFam, w *World, res *Result) []Violation {
 			// still carries: the property speaks of protocol-conformant clients
 			continue
 		}
+		dupPoll := false
+		if sp := f.spec(a); sp != nil {
+			for _, ft := range sp.Faults {
+				dupPoll = dupPoll || ft.Kind == "dup-poll"
+			}
+		}
 		type key struct{ s string }
 		idx := map[string][2]int{} // payload(with kind) -> sender ordinal, index within sender
 		bySender := map[string][]SentMsg{}
@@ -159,6 +165,17 @@ func oracleC01(f *sessionFam, w *World, res *Result) []Violation {
 			}
 			want := bySender[s][min(next[s], len(bySender[s])-1)]
 			wk := kindPrefix(want.Binary) + string(want.Data)
+			if (next[s] >= len(bySender[s]) || wk != e.S) && dupPoll {
+				// two polls of one client were outstanding (fault 'dup-poll'): the order in which a client processes
+				// two responses that travel on different connections is its own business, not the server's
+				w.probe("order_not_judged_two_polls_outstanding")
+				for i, m := range bySender[s] {
+					if kindPrefix(m.Binary)+string(m.Data) == e.S {
+						next[s] = i + 1
+					}
+				}
+				continue
+			}
 			if next[s] >= len(bySender[s]) || wk != e.S {
 				l.add("per-sender-prefix", tr+lossCtx(wk), fmt.Sprintf("%s [%s]: sender %s: client received %q while the next undelivered message of that sender is %q (messages lost or reordered)", a, ctx, s, clip(e.S, 50), clip(wk, 50)))
 				// resynchronise after the received one
@@ -375,10 +392,21 @@ func (f *sessionFam) shutdownDuringHandshake(w *World, a string) bool {
 	if from < 0 {
 		return false
 	}
-	for _, e := range w.evs("", "app-server-close", "app-http-close") {
-		if int64(e.Seq) > from && (to < 0 || int64(e.Seq) < to) {
-			return true
+	// the shutdown is under way from its invocation to its return: the two intervals overlap
+	var open int64 = -1
+	for _, e := range w.Evs {
+		switch e.Kind {
+		case "app-server-close", "app-http-close":
+			open = int64(e.Seq)
+		case "app-server-close-ret", "app-http-close-ret":
+			if open >= 0 && open < toOr(to) && int64(e.Seq) > from {
+				return true
+			}
+			open = -1
 		}
+	}
+	if open >= 0 && open < toOr(to) {
+		return true // (a shutdown that never returned)
 	}
 	return false
 }
@@ -542,4 +570,11 @@ func impatientSpec(sp *ClientSpec) bool {
 		}
 	}
 	return false
+}
+
+func toOr(to int64) int64 {
+	if to < 0 {
+		return 1 << 62
+	}
+	return to
 }
